@@ -235,6 +235,8 @@ void DocumentBuilder::proc_edge_begin(const char* from, const char* to, const bo
 {
     symbol_t fid, tid;
 
+    // labels of an edge that cannot be created must not be applied to the previous edge
+    currentEdge = nullptr;
     if (!resolve(from, fid) || (!fid.get_type().is_location() && !fid.get_type().is_branchpoint())) {
         handle_error(TypeException{"$No_such_location_or_branchpoint_(source)"});
         push_frame(frame_t::create(frames.top()));  // dummy frame for upcoming popFrame
@@ -253,11 +255,20 @@ void DocumentBuilder::proc_edge_begin(const char* from, const char* to, const bo
 
 void DocumentBuilder::proc_edge_end(const char* from, const char* to) { popFrame(); }
 
-void DocumentBuilder::proc_select(const char* id) { addSelectSymbolToFrame(id, currentEdge->select, position); }
+void DocumentBuilder::proc_select(const char* id)
+{
+    if (!currentEdge) {
+        typeFragments.pop();
+        handle_error(TypeException("Must be declared inside of an edge"));
+        return;
+    }
+    addSelectSymbolToFrame(id, currentEdge->select, position);
+}
 
 void DocumentBuilder::proc_guard()
 {
     if (!currentEdge) {
+        fragments.pop();
         handle_error(TypeException("Must be declared inside of an edge"));
         return;
     }
@@ -269,6 +280,7 @@ void DocumentBuilder::proc_guard()
 void DocumentBuilder::proc_sync(synchronisation_t type)
 {
     if (!currentEdge) {
+        fragments.pop();
         handle_error(TypeException("Must be declared inside of an edge"));
         return;
     }
@@ -280,6 +292,7 @@ void DocumentBuilder::proc_sync(synchronisation_t type)
 void DocumentBuilder::proc_update()
 {
     if (!currentEdge) {
+        fragments.pop();
         handle_error(TypeException("Must be declared inside of an edge"));
         return;
     }
@@ -291,6 +304,7 @@ void DocumentBuilder::proc_update()
 void DocumentBuilder::proc_prob()
 {
     if (!currentEdge) {
+        fragments.pop();
         handle_error(TypeException("Must be declared inside of an edge"));
         return;
     }
